@@ -87,7 +87,8 @@ class DGen:
         if k < 0.58:
             return Part("P1{%s:23:N}" % hx(n), "${#" + n + "}"), None
         op = r.choice([":-", "-", ":=", "=", ":?", "?", ":+", "+", "%", "%%", "#", "##"])
-        w = self.opword(d - 1, ctx)
+        # (now and then a substitution in the word at the innermost level too: ${x:-`a`} inside $( ) and $(( )))
+        w = self.opword(d - 1 if d > 1 or r.random() < 0.6 else 1, ctx)
         return Part("P1{%s:%s:%s}" % (hx(n), hx(op), wser(w)), "${" + n + op + "".join(p.text for p in w) + "}"), None
 
     def opword(self, d, ctx):
